@@ -433,6 +433,7 @@ func (c connectStreamClientProtocol) extractProtocolRequestHeaders(_ *operation,
 	headers.Del("Connect-Content-Encoding")
 	reqMeta.acceptCompression = parseMultiHeader(headers.Values("Connect-Accept-Encoding"))
 	headers.Del("Connect-Accept-Encoding")
+	headers.Del("Connect-Protocol-Version")
 	return reqMeta, nil
 }
 
